@@ -27,6 +27,16 @@ if TYPE_CHECKING:
     from ...physics.time.stardate import JulianDate
 
 
+def _reportOrder(observation: Observation) -> tuple:
+    """Sort key of a reported observation that is independent of the order in which worker jobs finish."""
+    return (
+        observation.julian_date,
+        observation.target_id,
+        observation.sensor_id,
+        *observation.measurement_states,
+    )
+
+
 class TaskingEngine(metaclass=ABCMeta):
     """Abstract base class defining common API for tasking engines.
 
@@ -186,6 +196,9 @@ class TaskingEngine(metaclass=ABCMeta):
         """
         self._observations.extend(observations)
         self._saved_observations.extend(observations)
+        # Worker jobs report in the order they happen to finish: keep an order that does not depend on it
+        self._observations.sort(key=_reportOrder)
+        self._saved_observations.sort(key=_reportOrder)
 
     def getCurrentObservations(self) -> list[Observation]:
         """``list``: Returns current list of observations saved internally & resets transient list."""
